@@ -92,7 +92,7 @@ func (c *Conn) handleAuthenticate(tag string, dec *imapwire.Decoder) error {
 			return err
 		}
 
-		encodedResp, isPrefix, err := c.br.ReadLine()
+		encodedResp, isPrefix, err := c.readLine()
 		if err != nil {
 			return err
 		} else if isPrefix {
